@@ -360,7 +360,7 @@ fn c14_o2_ping_round() {
     kani::assume(dt <= 2000);
     let now = t + dt;
     clock::set(now);
-    core.routing_table = crate::common::routing_table::kani_h::table_with(Id::from([0u8; 20]), ns);
+    core.routing_table = crate::common::kani_h_routing_table::table_with(Id::from([0u8; 20]), ns);
     let to_ping = core.check_nodes_to_ping_and_remove_stale_nodes();
     let mut kept = 0usize;
     let mut pinged = 0usize;
